@@ -191,7 +191,8 @@ def random_desc(rng: random.Random, nf: int) -> dict:
                       "ms": {"ins": [], "outs": []}, "internal": [], "cache": False,
                       "retnone": rng.random() < (0.35 if i == 0 else 0.1),                      # None is an ordinary result value
                       "outperm": len(outs) > 1 and rng.random() < 0.4,     # tuple outputs renamed by a permutation
-                      "outrenamed": rng.random() < 0.2})
+                      "outrenamed": rng.random() < 0.2,
+                      "renamed": [p for p in params if rng.random() < 0.3]})   # underlying argument named differently
         avail += outs
     # consistent defaults: one default value per name (already by construction)
     return {"funcs": funcs}
